@@ -13,7 +13,7 @@ import (
 )
 
 var c03Forced = []string{"group.1col", "group.2col", "group.3col", "group.nullkey", "group.mixedkey", "having", "having.key", "where", "star", "agg.COUNT*", "agg.COUNT", "agg.SUM", "agg.MIN", "agg.MAX", "agg.AVG",
-	"agg.samefn-diffcol", "agg.samefn-samecol", "agg.nullable", "whole.where", "whole.nowhere", "whole.empty", "whole.union", "whole.limit", "table.empty", "from.alias", "reexec.vars"}
+	"agg.samefn-diffcol", "agg.samefn-samecol", "agg.nullable", "whole.where", "whole.nowhere", "whole.empty", "whole.union", "whole.limit", "table.empty", "from.alias", "reexec.vars", "agg.groupcol"}
 
 func init() {
 	fw.Register(&fw.Prop{
@@ -29,7 +29,7 @@ func init() {
 			"aggregated values are dyadic rationals so that the bit-exact comparison does not depend on summation order",
 			"HAVING compares aggregates of non-NULL columns and non-NULL key columns only",
 		},
-		Floor:         c03Forced,
+		Floor:         append(append([]string{}, c03Forced...), "reexec.after-failure"),
 		MinNontrivial: 50,
 		Phases: []fw.Phase{
 			{Name: "group", N: func(t fw.Tier) int { return pick(t, 10000, 300000) }, Run: c03Group},
@@ -187,9 +187,21 @@ func c03Group(c *fw.Case) {
 		aggs[1] = aggs[0]
 	case force == "agg.nullable":
 		aggs[0] = ref.Agg{Fn: gen.Pick(c.R, []string{"SUM", "MIN", "MAX"}), Col: "w1"}
+	case force == "agg.groupcol":
 	case strings.HasPrefix(force, "agg."):
 		fn := strings.TrimPrefix(force, "agg.")
 		aggs[0] = ref.Agg{Fn: fn, Col: "v1"}
+	}
+	if !whole && (force == "agg.groupcol" || (force == "" && c.Chance(0.25))) {
+		// an aggregate of a grouping column covers every member of the group
+		switch {
+		case containsStr(gcols, "g2"):
+			aggs = append(aggs, ref.Agg{Fn: gen.Pick(c.R, []string{"SUM", "COUNT", "SUM", "AVG", "MIN"}), Col: "g2"})
+		case containsStr(gcols, "g1"):
+			aggs = append(aggs, ref.Agg{Fn: "COUNT", Col: "g1"})
+		case containsStr(gcols, "g3"):
+			aggs = append(aggs, ref.Agg{Fn: "COUNT", Col: "g3"})
+		}
 	}
 	var items []c03Item
 	if !whole {
@@ -215,6 +227,9 @@ func c03Group(c *fw.Case) {
 		if a.Col == "w1" {
 			feats = append(feats, "agg.nullable")
 		}
+		if containsStr(gcols, a.Col) {
+			feats = append(feats, "agg.groupcol")
+		}
 		if prev, ok := seenFn[a.Fn]; ok && prev != a.Col {
 			feats = append(feats, "agg.samefn-diffcol")
 		}
@@ -229,6 +244,9 @@ func c03Group(c *fw.Case) {
 	var having gen.Pred
 	colText := map[string]string{}
 	havingAggs := []ref.Agg{{Fn: "COUNT", Col: "*"}, {Fn: "SUM", Col: "v1"}, {Fn: "MIN", Col: "v2"}, {Fn: "MAX", Col: "v1"}, {Fn: "AVG", Col: "v2"}}
+	if containsStr(gcols, "g2") {
+		havingAggs = append(havingAggs, ref.Agg{Fn: "SUM", Col: "g2"}, ref.Agg{Fn: "COUNT", Col: "g2"})
+	}
 	if !whole && (force == "having" || force == "having.key" || c.Chance(0.35)) {
 		atom := func() gen.Pred {
 			ops := []string{"=", "!=", "<", "<=", ">", ">="}
@@ -533,6 +551,27 @@ func c03Reexec(c *fw.Case) {
 	if c.Chance(0.3) && !grouped {
 		sql = "SELECT rid, SUM(v1) AS s FROM t1 WHERE v1 >= GETVAR('min')"
 	}
+	failing := false
+	if !grouped && c.Chance(0.35) {
+		// the rows with the smallest v1 carry a reading that is no number: an
+		// execution that admits them fails after its first aggregates have
+		// been computed, the next one starts from nothing all the same
+		failing = true
+		low := t.Rows[0]["v1"].(float64)
+		for _, row := range t.Rows {
+			row["p"] = row["v2"]
+			if v := row["v1"].(float64); v < low {
+				low = v
+			}
+		}
+		for _, row := range t.Rows {
+			if row["v1"].(float64) == low {
+				row["p"] = "n/a"
+				break
+			}
+		}
+		sql = "SELECT COUNT(*) AS c, MIN(v1) AS f, SUM(p) AS s, MAX(v2) AS m FROM t1 WHERE v1 >= GETVAR('min')"
+	}
 	vars := map[string]any{"min": -1e9}
 	q, nerr := newSafe(DocOf(t), sql, genql.WithVars(vars))
 	if q == nil || nerr.Err != nil {
@@ -552,6 +591,10 @@ func c03Reexec(c *fw.Case) {
 		c.Evals(2)
 		det := map[string]any{"sql": sql, "doc": DocOf(t), "execution": i + 1, "min": min, "observed": got.Describe(), "fresh_query": fresh.Describe()}
 		if !fresh.OK() {
+			if failing {
+				c.Feature("reexec.after-failure")
+				continue
+			}
 			c.Discard("a fresh query fails")
 			return
 		}
